@@ -351,7 +351,7 @@ def validate(hists, nbatch=None):
     """-> list of (failing step index (1-based) or 0, [clauses]) per history, plus TLC counters"""
     if not hists:
         return [], dict(generated=0, distinct=0)
-    nbatch = nbatch or min(C.NCPU, max(1, len(hists) // 8))
+    nbatch = nbatch or max(min(C.NCPU, max(1, len(hists) // 8)), (len(hists) + 59) // 60)      # <= 60 histories per TLC process
     size = (len(hists) + nbatch - 1) // nbatch
     batches = [hists[i:i + size] for i in range(0, len(hists), size)]
     out = [None] * len(hists)
